@@ -6,9 +6,31 @@ func registerProps() {
 	reg(&propDef{
 		ID: "C11", Pkg: "internal/peers", Level: "exploration",
 		Quick: 40000, Thorough: 3000000, QuickWall: 90 * time.Second, ThorWall: 25 * time.Minute,
-		Rule: "each run = one seeded script set (2-6 actors issuing Add/remove/re-Add with the same peer id/CloseSession/List/Broadcast/BroadcastExcept/SendTo on 1-2 sessions, send functions that succeed, fail or block) x one seeded schedule (random walk, weighted walk or PCT with 0-3 priority change points, optional clock stalls) over the generated yield points of hub.go; a run counts as non-trivial when it took more than 10 scheduling steps and as distinct by the hash of its decision log",
+		Rule:   "each run = one seeded script set (2-6 actors issuing Add/remove/re-Add with the same peer id/CloseSession/List/Broadcast/BroadcastExcept/SendTo on 1-2 sessions, send functions that succeed, fail or block) x one seeded schedule (random walk, weighted walk or PCT with 0-3 priority change points, optional clock stalls) over the generated yield points of hub.go; a run counts as non-trivial when it took more than 10 scheduling steps and as distinct by the hash of its decision log",
 		Real:   []string{"internal/peers.Hub (instrumented copy of the current working tree)", "pkg/protocol"},
 		Stub:   []string{"send functions / closeFn (harness closures standing in for the WebSocket writer)", "callers (scripts instead of cmd/thruserv handlers; those run in C10)"},
 		Assume: []string{"code between two generated yield points of one goroutine contains no synchronisation other than unlock/atomic operations", "porcupine timeouts (Unknown) are counted, never reported"},
+	})
+
+	txReal := []string{"internal/transfer: SendManifestMultiStream, RecvManifestMultiStream, multiConn, sidecar, control/data protocol (instrumented copy of the current working tree)", "internal/scheduler", "internal/bufpool", "pkg/manifest Scan/ScanPaths", "OS file system (real syscalls behind the interposition layer, per-run scratch directory)"}
+	txStub := []string{"QUIC connection: SimNet stream-level model (DESIGN.md 2.4) instead of transferquic/quic-go", "app shell around the engines (sender closes with code 0 when the engine returns; receiver process exits without closing)", "path resolver for selection mode (join with the source root; buildPathResolver lives in package app)"}
+	txAssume := []string{"SimNet models QUIC stream semantics as pinned in DESIGN.md 2.4 (stream visibility, close discards unread data, idle timeout 30 s)", "code between two generated yield points of one goroutine contains no synchronisation other than unlock/atomic operations", "one monotone fake clock for both nodes (no skew)"}
+	reg(&propDef{
+		ID: "C03", Pkg: "internal/transfer", Level: "exploration",
+		Quick: 1500, Thorough: 60000, QuickWall: 4 * time.Minute, ThorWall: 40 * time.Minute,
+		Rule: "each run = one seeded workload (0-6 files with sizes around chunk boundaries, nesting, empty directories, legal odd names; chunk size 1 B-16 KiB; 1-8 streams; 1-4 connections; resume per side; hash algorithm; root-dir and scan mode; QUIC role; segment size; flow-control window) x one seeded schedule (random/weighted/PCT/FIFO, clock stalls, starve-one) with NO faults; non-trivial = more than 50 scheduling steps, distinct by decision-log hash",
+		Real: txReal, Stub: txStub, Assume: txAssume,
+	})
+	reg(&propDef{
+		ID: "C01", Pkg: "internal/transfer", Level: "exploration",
+		Quick: 1500, Thorough: 60000, QuickWall: 4 * time.Minute, ThorWall: 40 * time.Minute,
+		Rule: "same generator as C03 (fault-free, all configurations and schedules); only runs in which both engines returned nil are judged (the others are counted as outside the property's scope); oracle: digest of the output directory = digest of the generated source tree, nothing else present except the resume-metadata directory",
+		Real: txReal, Stub: txStub, Assume: txAssume,
+	})
+	reg(&propDef{
+		ID: "C17", Pkg: "internal/transfer", Level: "exploration",
+		Quick: 1500, Thorough: 60000, QuickWall: 4 * time.Minute, ThorWall: 40 * time.Minute,
+		Rule: "same generator as C03; oracle over the sender's wire history (every Write stamped with the scheduler step, decoded with the repo's decoders): one FileBegin per file, no (file,chunk) frame twice except the verified chunk once more, one FileEnd per file after its last chunk write, nothing after FileEnd, every needed chunk written or advertised",
+		Real: txReal, Stub: txStub, Assume: txAssume,
 	})
 }
